@@ -60,6 +60,17 @@ public:
       QUILL_THROW(QuillError("`%X` as format modifier is not currently supported in format: " + _timestamp_format));
     }
 
+    // A conversion that depends on the time of day but is not one of the plain two character
+    // modifiers handled below (e.g. %c, %Ec, %EX, %OS or a flag or width as in %-H, %_M, %5S) would be
+    // cached as static text and shown stale until the next recalculation; an escaped percent sign
+    // (%%H) would be split as if it was a modifier. Such formats are always formatted by strftime
+    _is_cacheable = _can_cache_format(_timestamp_format);
+
+    if (!_is_cacheable)
+    {
+      return;
+    }
+
     // We first look for some special format modifiers and replace them
     _replace_all(_timestamp_format, "%r", "%I:%M:%S %p");
     _replace_all(_timestamp_format, "%R", "%H:%M");
@@ -75,7 +86,7 @@ public:
     // First we check for the edge case where the given timestamp is back in time. This is when
     // the timestamp provided is less than our cached_timestamp. We only expect to format timestamps
     // that are incrementing not those back in time. In this case we just fall back to calling strfime
-    if (timestamp < _cached_timestamp)
+    if (!_is_cacheable || (timestamp < _cached_timestamp))
     {
       _fallback_formatted = _safe_strftime(_timestamp_format.data(), timestamp, _time_zone).data();
       return _fallback_formatted;
@@ -365,6 +376,53 @@ protected:
   }
 
   /***/
+  QUILL_NODISCARD static bool _can_cache_format(std::string const& format) noexcept
+  {
+    for (size_t i = 0; i < format.size(); ++i)
+    {
+      if (format[i] != '%')
+      {
+        continue;
+      }
+
+      size_t pos = i + 1;
+
+      if ((pos < format.size()) && (format[pos] == '%'))
+      {
+        return false;
+      }
+
+      bool has_flag_or_modifier{false};
+
+      while ((pos < format.size()) &&
+             (format[pos] == '_' || format[pos] == '-' || format[pos] == '^' || format[pos] == '#' ||
+              format[pos] == 'E' || format[pos] == 'O' || (format[pos] >= '0' && format[pos] <= '9')))
+      {
+        has_flag_or_modifier = true;
+        ++pos;
+      }
+
+      if (pos == format.size())
+      {
+        break;
+      }
+
+      char const c = format[pos];
+      bool const is_time_of_day = (c == 'H') || (c == 'I') || (c == 'k') || (c == 'l') || (c == 'M') ||
+        (c == 'S') || (c == 's') || (c == 'r') || (c == 'R') || (c == 'T') || (c == 'X') || (c == 'c');
+
+      if (is_time_of_day && (has_flag_or_modifier || (c == 'c')))
+      {
+        return false;
+      }
+
+      i = pos;
+    }
+
+    return true;
+  }
+
+  /***/
   static void _replace_all(std::string& str, std::string const& old_value, std::string const& new_value) noexcept
   {
     std::string::size_type pos = 0u;
@@ -435,6 +493,9 @@ private:
 
   /** This is only used only when we fallback to strftime */
   std::string _fallback_formatted;
+
+  /** False when the format has to be formatted by strftime every time */
+  bool _is_cacheable{true};
 
   /** The timestamp of the next noon, or midnight, we use this to resync */
   time_t _next_recalculation_timestamp{0};
